@@ -22,9 +22,15 @@ BANNED = re.compile(r"\b(sorry|admit|native_decide|bv_decide|implemented_by|unsa
 
 
 def sh(cmd, cwd=None, env=None, timeout=None, stdin=None):
-    p = subprocess.run(cmd, cwd=cwd, env=env, timeout=timeout, stdin=stdin, stdout=subprocess.PIPE,
-                       stderr=subprocess.STDOUT, text=True, errors="replace")
-    return p.returncode, p.stdout
+    """runs a command; a timeout is an outcome (rc 124, like timeout(1)), never an exception: a hanging harness or
+    build must end in a verdict, not in a crashed check"""
+    try:
+        p = subprocess.run(cmd, cwd=cwd, env=env, timeout=timeout, stdin=stdin, stdout=subprocess.PIPE,
+                           stderr=subprocess.STDOUT, text=True, errors="replace", start_new_session=True)
+        return p.returncode, p.stdout
+    except subprocess.TimeoutExpired as e:
+        out = e.stdout if isinstance(e.stdout, str) else (e.stdout or b"").decode("utf-8", "replace")
+        return 124, out + f"\n[timed out after {timeout}s]"
 
 
 def log(*a):
@@ -197,8 +203,10 @@ def run_engine(eng, seed, n, tier, tag, replay=None, extra=None, timeout=3000):
     """runs harness + model driver; a run whose harness PROCESS died (crash, not a reported violation) is repeated once:
     a deterministic crash recurs and is reported, a one-off (scheduler-dependent harness race under load) is recorded
     in the result as `retried_after` and does not raise an alarm by itself."""
+    # time limits: a run that takes many times its usual time hangs (the usual quick run takes well under two minutes)
+    timeout = min(timeout, int(eng.get("timeout_quick", 900)) if tier == "quick" and tag != "search" else int(eng.get("timeout_thorough", 3000)))
     r = _run_engine(eng, seed, n, tier, tag, replay, extra, timeout)
-    if r["error"] and r["error"].startswith("harness "):
+    if r["error"] and r["error"].startswith("harness ") and " exited 124" not in r["error"]:
         first = r["error"]
         log(f"harness {eng['harness']} died in run {tag}; repeating the run once")
         r = _run_engine(eng, seed, n, tier, tag, replay, extra, timeout)
@@ -228,8 +236,12 @@ def _run_engine(eng, seed, n, tier, tag, replay=None, extra=None, timeout=3000):
     r["stats"] = json.load(open(stats))
     if eng.get("driver"):
         drv = os.path.join(LEAN, ".lake", "build", "bin", eng["driver"])
-        with open(ops) as fin, open(model, "w") as fout:
-            p = subprocess.run([drv], stdin=fin, stdout=fout, stderr=subprocess.PIPE, text=True, timeout=timeout)
+        try:
+            with open(ops) as fin, open(model, "w") as fout:
+                p = subprocess.run([drv], stdin=fin, stdout=fout, stderr=subprocess.PIPE, text=True, timeout=timeout)
+        except subprocess.TimeoutExpired:
+            r["error"] = f"model driver {eng['driver']} timed out after {timeout}s"
+            return r
         if p.returncode != 0:
             r["error"] = f"model driver {eng['driver']} exited {p.returncode}: {p.stderr[-500:]}"
             return r
